@@ -217,6 +217,14 @@ def gen_dtc(inv, base, dids, rnd, nrec_choices):
     out = []
     fixed_dids = [(d, sh) for d, sh in dids if sh >= 0 and 0 < d < (1 << (8 * ds))]
     readall_dids = [(d, sh) for d, sh in dids if sh < 0 and 0 < d < (1 << (8 * ds))]
+    dflt = [sh for d, sh in dids if d < 0][:1]
+    if dflt:
+        # the table has a 'default' entry: identifiers it does not list are served by that codec
+        unlisted = [(x, dflt[0]) for x in (0x5A, 0x5A5B, 0x5A5B5C) if x < (1 << (8 * ds)) and x not in [d for d, _ in dids]]
+        if dflt[0] >= 0:
+            fixed_dids = fixed_dids + unlisted + unlisted      # drawn as often as the listed ones
+        else:
+            readall_dids = readall_dids + unlisted
 
     def ids(n):
         s = set()
